@@ -44,6 +44,7 @@ type OldDef struct {
 type LoopContract struct {
 	Ordinal    int
 	CondText   string
+	Of         int // number of loops the function had when the contract was written (0 = not recorded)
 	Invariants []Clause
 	Decreases  string
 	Line       int
@@ -279,7 +280,19 @@ func ParseContractFile(path, source string) (*ContractFile, error) {
 				}
 				curLoop = &LoopContract{Ordinal: n, Line: d.line}
 				if len(fs) > 1 {
-					curLoop.CondText = strings.Trim(strings.TrimSpace(fs[1]), `"`)
+					r2 := strings.TrimSpace(fs[1])
+					// optional `of N`: the function's loop count when the contract was written
+					if strings.HasPrefix(r2, "of ") {
+						g := strings.SplitN(strings.TrimSpace(r2[3:]), " ", 2)
+						if m, err := strconv.Atoi(g[0]); err == nil {
+							curLoop.Of = m
+						}
+						r2 = ""
+						if len(g) > 1 {
+							r2 = strings.TrimSpace(g[1])
+						}
+					}
+					curLoop.CondText = strings.Trim(r2, `"`)
 				}
 				cur.Loops = append(cur.Loops, curLoop)
 			case "lossless":
